@@ -13,6 +13,7 @@ import IgVerif.Model.CType
 import IgVerif.Model.Scope
 import IgVerif.Model.Traits
 import IgVerif.Model.Scan
+import IgVerif.Model.Determinism
 /-! `igdriver <model>`: reads one op per line on stdin, prints one answer per line.
 Byte strings are hex ("-" = empty). -/
 open IgVerif
@@ -635,6 +636,14 @@ def scanStep (_ : Unit) (toks : List String) : IO (Unit × String) := do
     | _ => return ((), "bad-op")
   | _ => return ((), "bad-op")
 
+/-! ### det -/
+def detStep (_ : Unit) (toks : List String) : IO (Unit × String) := do
+  match toks with
+  | ["fileid", sde, now] =>
+    let s : Option (List Nat) := if sde == "unset" then none else some (unhex sde)
+    return ((), toString (Det.fileId s (parseInt now)))
+  | _ => return ((), "bad-op")
+
 def main (args : List String) : IO UInt32 := do
   let stdin ← IO.getStdin
   match args with
@@ -650,4 +659,5 @@ def main (args : List String) : IO UInt32 := do
   | ["scope"] => loop stdin scopeStep (); return 0
   | ["traits"] => loop stdin traitsStep (); return 0
   | ["scan"] => loop stdin scanStep (); return 0
+  | ["det"] => loop stdin detStep (); return 0
   | _ => IO.eprintln "usage: igdriver <model>"; return 2
